@@ -195,6 +195,9 @@ def table():
         m = json.load(open(mp))
         own = m["checks"].get(m["property"], {})
         others = [p for p, c in sorted(m["checks"].items()) if c.get("detected") and p != m["property"]]
+        if m.get("neutralised_by"):
+            print(f"| {sid} | {m['property']} | {m.get('needs_to_manifest','')} | n/a: neutralised by {m['neutralised_by'].split(' ')[0]} | |")
+            continue
         o = "not run" if not own else ("yes" + (" (no-failing-input-found)" if own.get("no_failing_input") == own.get("violations") and own.get("violations") else "") if own.get("detected") else "NO")
         print(f"| {sid} | {m['property']} | {m.get('needs_to_manifest','')} | {o} | {' '.join(others)} |")
 
